@@ -270,6 +270,9 @@ func cmdCheck(args []string) int {
 			set[f] = true
 		}
 		for _, f := range pc.Lockstep {
+			if strings.HasPrefix(f, "*") {
+				continue // pseudo entry (e.g. *dispatch: calls through interfaces and function values are assumed coupled)
+			}
 			fi, ok := pr.Funcs[f]
 			if !ok {
 				items = append(items, &checkItem{Name: f + "/exists", Kind: "missing", Text: "function verified in lockstep no longer exists", Status: "missing", Func: f})
